@@ -16,6 +16,13 @@ Proof. exact resolve_agree. Qed.
 Theorem C03_localsplus_order : forall tb, model_localsplus tb = spec_localsplus tb.
 Proof. exact localsplus_eq. Qed.
 
+(* a free variable always has a slot of its own in xdis's merged table, whatever it is called: the slot CPython gives it
+   (number of locals + number of cells that are not locals + its index among the free variables) *)
+Theorem C03_free_slot : forall tb i, (i < List.length (tb_frees tb))%nat ->
+  nth_error (model_localsplus tb)
+    (List.length (tb_vars tb) + List.length (filter (fun c => negb (zmem c (tb_vars tb))) (tb_cells tb)) + i) = nth_error (tb_frees tb) i.
+Proof. exact free_slot. Qed.
+
 (* comparison operators: same index everywhere; the spelling differs from CPython's only at
    indices 7, 9, 10 ('not-in', 'is-not', 'exception-match': known finding D16) *)
 Theorem C03_cmp_spelling : forallb (fun '(_, d) => forallb (fun i => zmem i [7; 9; 10]) d) cmp_spelling_diffs = true.
